@@ -771,7 +771,9 @@ func registerImportChecks() {
 		preambles := [][]string{nil, {"#include <a.h>"}, {"#include <a.h>\n#include <b.h>"}, {"// #include <raw.h>"}, {"#include <a.h>", "/* second */", "int x;"}, {"#include <a.h>", "#include <a.h>"}, {"#define T int", "#include \"v.h\"", "#undef T\n#define T float", "#include \"v.h\""},
 			// texts that begin and/or end with line breaks (back-quoted literals opened on their own
 			// line), with comment-looking lines inside: not the raw form — the FIRST bytes decide
-			{"#include <a.h>", "\n// helpers\n", "int x;"}, {"\n/* section */\n"}, {"\r\n// crlf first\r\n#include <c.h>"}, {"\n\n#include <a.h>\n\n"}, {" // blank first", "\t/* tab first */"}}
+			{"#include <a.h>", "\n// helpers\n", "int x;"}, {"\n/* section */\n"}, {"\r\n// crlf first\r\n#include <c.h>"}, {"\n\n#include <a.h>\n\n"}, {" // blank first", "\t/* tab first */"},
+			// raw form holding several comments (no blank line between them: that would be the user's own separation)
+			{"/* #cgo LDFLAGS: -lm */\n/* #include <m.h> */"}, {"// #cgo LDFLAGS: -lm\n//\n// #include <m.h>"}, {"/* a */\n// b\n/* c */"}, {"/* #cgo LDFLAGS: -lm */\n\n/* #include <m.h> */"}}
 		others := [][]string{nil, {"fmt"}, {"a.com/d", "b.com/d", "os"}, {"x.com/c"}, {"a.com/C"},
 			{"9fans.net/go/acme", "fmt"}, {"Azure.com/sdk", "B.io/x"}, {"-x.org/y"}}
 		n := 0
